@@ -7,7 +7,7 @@ PID = 'C09'
 CLAIM = dict(
     text='Krylov.tla: ExactStart (an initial residual that passes the test => the only continuation is AcceptInitial: Ok(0), x untouched) is checked by TLC for all four kinds; with the switch BiCGInitialCheck = FALSE (solve_bicg before fix D5) TLC exhibits the counterexample. '
          'The CG recurrences of solve_cg are transcribed over exact rationals and checked by TLC on every 2x2 symmetric strictly dominant integer system in scope: termination within n = 2 iterations, recurrence residual = true residual in every state, final iterate = Cramer solution; the exact iterates are emitted as cases and replayed on the real solvers. '
-         'Against the real code TLC validates every recorded call on generated systems with provable conditioning (SPD = D + S with Gershgorin-bounded kappa <= 12 and <= 1000; strictly row-dominant nonsymmetric with ratio <= 0.4 and diagonals of either sign; nonsymmetric dominant matrices with equal row and column sums or symmetric pattern (circulants, D + constant-weight cyclic shifts, D + weighted permutations, skew part + dominant diagonal, one SPD circulant sub-family for CG); strongly non-normal upwind stencils (family upw: tridiag(-a,d,-c) and pentadiagonal with a/c in {3,4,5,8}, d = a+c+margin, margin 1/0.5/0.1, n = 30..60 inside the window n*log10(a/c)/2 <= 13.6, and 5-point upwind convection-diffusion stencils on grids up to order 60; right-hand sides ones/sin(k h)/e_1/random, zero and random guesses, tol 1e-6..1e-10; BiCG, BiCGSTAB, QMR; iteration guard 10n+100); initial guesses at distance 1e3, 1e6, 1e9 (QMR: 1e7) from the solution with tol >= 1e-12 x distance (QMR 1e-10 x), all solver variants incl. BiCG itol 2; sequences on one Sparse object (insert overwriting / new entry / scale / transpose() between solves, judged against the current dense matrix); orders 1..60, every pattern/triplet order, right-hand sides 1e-8..1e8 and zero, guesses zero/random, tol 1e-12..1e-3): '
+         'Against the real code TLC validates every recorded call on generated systems with provable conditioning (SPD = D + S with Gershgorin-bounded kappa <= 12 and <= 1000; strictly row-dominant nonsymmetric with ratio <= 0.4 and diagonals of either sign; nonsymmetric dominant matrices with equal row and column sums or symmetric pattern (circulants, D + constant-weight cyclic shifts, D + weighted permutations, skew part + dominant diagonal, one SPD circulant sub-family for CG); strongly non-normal upwind stencils (family upw: tridiag(-a,d,-c) and pentadiagonal with a/c in {3,4,5,8}, d = a+c+margin, margin 1/0.5/0.1, n = 30..60 inside the window n*log10(a/c)/2 <= 13.6, and 5-point upwind convection-diffusion stencils on grids up to order 60; right-hand sides ones/sin(k h)/e_1/random, zero and random guesses, tol 1e-6..1e-10; BiCG, BiCGSTAB, QMR; iteration guard 10n+100); initial guesses at distance 1e3, 1e6, 1e9 (QMR: 1e7) from the solution with tol >= 1e-12 x distance (QMR 1e-10 x), all solver variants incl. BiCG itol 2; sequences on one Sparse object, or two objects of the same size in alternation (between solves: insert overwriting / new entry / scale / transpose(), and writes through the public fields - one coefficient of val, the whole val array scaled or sign-flipped, made symmetric / nonsymmetric, a consistent rewrite of val, row_index and col_start; round 0 is a solve, products only, or nothing, so that the first solve may also follow the first mutation; every solve is judged against the independently tracked current dense matrix); extreme legal budgets usize::MAX, usize::MAX - 1, u32::MAX, i64::MAX on small well-posed systems for every variant; orders 1..60, every pattern/triplet order, right-hand sides 1e-8..1e8 and zero, guesses zero/random, tol 1e-12..1e-3): '
          'Ok, k <= 4n+40 (all kinds), for CG additionally k <= ceil(1.5*(sqrt(kappa)/2)*ln(2*sqrt(kappa)*max(1,|r0|/|b|)/tol))+5, agreement with Matrix::solve_basic on the dense copy within 4*kappa*tol + 64*n*kappa*eps; budget ladder after every successful convergence call (generous budget -> Ok(k); then budget k and k+1 must answer Ok(k) with bit-identical x and budget k-1 must answer Err - TLC checks the same law, BudgetLadder, on the protocol model); exact initial guess (integer systems, true residual exactly 0) => Ok(0) and x bit-identical; zero rhs + zero guess => Ok(0) and x = 0.',
     note='Decided exactly by TLC: ExactStart and the exact-rational CG laws (2x2 only: 3x3 overflows TLC integers). Resting on harness measurements: the Gershgorin / row-dominance condition bound, the CG iteration bound computed from it (logged as an integer, compared by the spec), agreement units against the dense solution. '
          '4n+40 is a calibrated constant (see notes), the CG bound is a-priori. Iterates are compared with the exact ones as conformance notes only. '
